@@ -1,7 +1,7 @@
 #!/bin/sh
 # sweep.sh <tier> <seed...>: runs every registered check at each seed, prints one line per run.
 tier=$1; shift
-cd /verif
+cd "$(dirname "$0")/.."
 for sd in "$@"; do
   for id in $(python3 -c "import json;print(' '.join(c['property_id'] for c in json.load(open('MANIFEST.json'))['checks']))"); do
     s=$(date +%s)
